@@ -401,11 +401,11 @@ func VfC14_History() {
 // too.  A module with three unnumbered definitions (a reference chain and an
 // attachment) is observed or not, then edited (a definition appended, inserted
 // first, inserted in the middle, the first one removed, two swapped), then
-// printed.
+// printed; or a definition is replaced in place, which moves nothing.
 //
 //vf:unwind 300
 func VfC14_Metadata() {
-	k := vfChoice("edit", 6)
+	k := vfChoice("edit", 8)
 	how := vfChoice("observe", 3)
 	build := func() *Module {
 		m := NewModule()
@@ -435,6 +435,15 @@ func VfC14_Metadata() {
 			m.MetadataDefs = m.MetadataDefs[1:]
 		case 4: // swap two
 			m.MetadataDefs[0], m.MetadataDefs[1] = m.MetadataDefs[1], m.MetadataDefs[0]
+		case 6: // replace the first definition in place (a temporary node swapped for the final one); no position changes
+			y := m.MetadataDefs[1].(*metadata.Tuple)
+			z := m.MetadataDefs[2].(*metadata.Tuple)
+			y.Fields = []metadata.Field{c}
+			z.Fields = []metadata.Field{y, c}
+			m.MetadataDefs[0] = c
+		case 7: // replace the last definition in place
+			m.MetadataDefs[2] = c
+			m.Globals[0].Metadata[0].Node = c
 		default: // a new attachment to an existing node, nothing moves
 			m.Globals[0].Metadata = append(m.Globals[0].Metadata, &metadata.Attachment{Name: "prof", Node: m.MetadataDefs[0].(*metadata.Tuple)})
 		}
